@@ -68,7 +68,8 @@ def extract(g, X):
 
     def fax():
         b = X.fn_body(ec, "fax_decode")
-        k = 1 if re.search(r"if\s+params\.k\s*>=\s*0\s*\{\s*bail!", b) and "unimplemented!" not in b else 0
+        # `unimplemented!()` is a bail! in this crate (error.rs): either spelling refuses K >= 0 with an error value
+        k = 1 if re.search(r"if\s+params\.k\s*>=\s*0\s*\{\s*(bail!|unimplemented!)", b) else 0
         # the guards must precede the decoder call
         call = b.find("decode_g4(")
         mc = re.search(r"match\s+u16::try_from\(params\.columns\)\s*\{\s*Ok\(c\)\s+if\s+c\s*>\s*0\s*=>\s*c\s*,\s*_\s*=>\s*bail!", b)
